@@ -167,7 +167,8 @@ pub fn eval_doc(doc: &Doc) -> (Vec<Failure>, u64) {
             shapes.dedup();
             fails.push(Failure {
                 key: format!("references:{}:{}", kind, if shapes.is_empty() { "spurious-or-duplicate".to_string() } else { format!("missing-{}", shapes.join("+")) }),
-                case: doc.case(json!({"method": "textDocument/references", "token": o.tok, "name": o.name})),
+                case: doc.case(json!({"method": "textDocument/references", "token": o.tok, "name": o.name, "position": doc.tok_positions(o.tok)[0],
+                    "expected_ranges": want_refs.iter().collect::<Vec<_>>()})),
                 detail: format!("cursor on #{} {:?} ({}): got {:?}, expected {:?}", o.tok, o.name, shape, got_refs, want_refs),
             });
         }
@@ -192,7 +193,8 @@ pub fn eval_doc(doc: &Doc) -> (Vec<Failure>, u64) {
                 shapes.dedup();
                 fails.push(Failure {
                     key: format!("rename:{}:{}", kind, if shapes.is_empty() { "spurious-or-duplicate".to_string() } else { format!("missing-{}", shapes.join("+")) }),
-                    case: doc.case(json!({"method": "textDocument/rename", "token": o.tok, "name": o.name})),
+                    case: doc.case(json!({"method": "textDocument/rename", "token": o.tok, "name": o.name, "position": doc.tok_positions(o.tok).last(),
+                        "expected_ranges": want_edits.iter().collect::<Vec<_>>()})),
                     detail: format!("cursor on #{} {:?}: edits {:?}, expected {:?}", o.tok, o.name, got_edits, want_edits),
                 });
             } else if let (Some(b @ Binding::Decl(_)), Some(e)) = (binding.clone(), edits.clone()) {
@@ -211,7 +213,7 @@ pub fn eval_doc(doc: &Doc) -> (Vec<Failure>, u64) {
             if p.as_ref() != Some(&want) && fails.len() < 40 {
                 fails.push(Failure {
                     key: format!("prepareRename:{}", kind),
-                    case: doc.case(json!({"method": "textDocument/prepareRename", "token": o.tok})),
+                    case: doc.case(json!({"method": "textDocument/prepareRename", "token": o.tok, "position": doc.tok_positions(o.tok)[0], "expected_answer": want})),
                     detail: format!("cursor on #{} {:?}: got {:?}, expected {} (rename offered: {})", o.tok, o.name, p, want, offered),
                 });
             }
@@ -330,14 +332,37 @@ pub fn run(tier: Tier) -> Report {
 }
 
 pub fn replay(case: &Value) -> Vec<Failure> {
-    // re-derive nothing: replays the stored request and prints the answer for inspection; the
-    // verdict needs the generator tree, so a replay is re-run through the family when needed
     let text = case["text"].as_str().unwrap_or("");
+    let rq = &case["request"];
+    let method = rq["method"].as_str().unwrap_or("");
     let mut s = Session::new(true);
     s.open(URI, text);
+    let id = if let Some(p) = rq["position"].as_array() {
+        Some(s.pos_request(method, URI, p[0].as_u64().unwrap_or(0) as u32, p[1].as_u64().unwrap_or(0) as u32))
+    } else {
+        None
+    };
     let o = s.run();
-    match o.error.or(o.frame_error) {
-        Some(e) => vec![Failure { key: "refs:error".into(), case: case.clone(), detail: e }],
-        None => vec![],
+    if let Some(e) = o.error.clone().or(o.frame_error.clone()) {
+        return vec![Failure { key: "refs:error".into(), case: case.clone(), detail: e }];
     }
+    let Some(id) = id else { return vec![] };
+    let got = o.responses().get(&id).and_then(|r| r.get("result").cloned()).unwrap_or(Value::Null);
+    let ranges: BTreeSet<(u64, u64, u64, u64)> = match method {
+        "textDocument/references" => got.as_array().map(|a| a.iter().map(|l| range_key(&l["range"])).collect()).unwrap_or_default(),
+        "textDocument/rename" => got["changes"][URI].as_array().map(|a| a.iter().map(|e| range_key(&e["range"])).collect()).unwrap_or_default(),
+        _ => BTreeSet::new(),
+    };
+    if let Some(exp) = rq["expected_ranges"].as_array() {
+        let want: BTreeSet<(u64, u64, u64, u64)> = exp.iter().map(|r| (r[0].as_u64().unwrap_or(0), r[1].as_u64().unwrap_or(0), r[2].as_u64().unwrap_or(0), r[3].as_u64().unwrap_or(0))).collect();
+        if ranges != want {
+            return vec![Failure { key: format!("{}:occurrence-set", method), case: case.clone(), detail: format!("got {:?}, expected {:?}", ranges, want) }];
+        }
+    }
+    if let Some(want) = rq.get("expected_answer") {
+        if &got != want {
+            return vec![Failure { key: format!("{}:answer", method), case: case.clone(), detail: format!("got {}, expected {}", got, want) }];
+        }
+    }
+    vec![]
 }
